@@ -30,11 +30,22 @@ def make_cases(rng, tier, n):
     for c_i in range(n):
         ns = rng.choice([2, 3, 3, 4, 4] + ([5, 6, 8] if tier == "thorough" else [5]))
         cyclic = rng.random() < 0.2
-        c = gen.pipeline_project(rng, "dag-%d" % c_i, ns, cyclic=cyclic, tier=tier)
+        c = gen.pipeline_project(rng, "dag-%d" % c_i, ns, cyclic=cyclic, tier=tier, sink=rng.random() < 0.3)
         names = [sp for sp, st in c["stages"]]
         ops = []
         if not cyclic:
             ops.append(("run", False, []))
+        fwd = [(j, i) for (j, i) in c["edges"] if j < i and j < ns and i < ns]
+        if not cyclic and fwd and rng.random() < 0.2:
+            # the upstream stage is re-run and committed ON ITS OWN, its source changes again, then the downstream stage is
+            # requested first: it must still wait for the stage that owns its input
+            j, i = rng.choice(fwd)
+            srcs = [p for p, fl in c["stages"][j][1].get("in", []) if p.startswith(b"src/")]
+            if srcs:
+                ops += [("commit", rng.choice("lc"), []),
+                        ("write", srcs[0], "g:%d:9" % rng.randrange(5000, 6000)), ("run", False, [names[j]]), ("commit", rng.choice("lc"), [names[j]]),
+                        ("write", srcs[0], "g:%d:9" % rng.randrange(6000, 7000)), ("run", False, [names[i], names[j]])]
+                stats["recommitted_upstream"] = stats.get("recommitted_upstream", 0) + 1
         for _ in range(rng.randrange(1, 5)):
             k = rng.choice(["run", "run", "run_s", "commit", "status", "checkout", "edit", "push", "fetch", "graph"])
             tg = []
@@ -102,6 +113,17 @@ def oracle(run):
                                 v.append(("order", "%s executed stage %d before its upstream stage %d: %s" % (what, x, j, log)))
                     if x in cyc and not single:
                         v.append(("cycle-executed", "%s executed stage %d which is on a cycle" % (what, x)))
+            # a successful push traversed its scope: every cached object a stage of the scope recorded is on the remote
+            if op[0] == "push" and st["rc"] == 0 and not meets_cycle:
+                have = set(n_ for n_, d_, m_ in st["snap"]["cache"])
+                rem = set(st["snap"]["remote"])
+                for k_ in sorted(scope):
+                    parsed = (st["snap"]["stages"].get(names[k_]) or (None, None))[1] or {}
+                    for o, a in (parsed.get("outputs") or {}).items():
+                        cs = (a or {}).get("checksum")
+                        if cs and not (a or {}).get("skip-cache") and cs in have and cs not in rem:
+                            v.append(("scope-not-pushed", "%s exited 0 but the object of output %s of stage %s, which is in its scope (requested or "
+                                      "upstream), is not on the remote" % (what, o, names[k_].decode())))
             # a successful commit committed every stage of its scope: each records a checksum for all its outputs
             if op[0] == "commit" and st["rc"] == 0 and not meets_cycle:
                 for k_ in sorted(scope):
@@ -120,6 +142,8 @@ def oracle(run):
                     a, b = prev["stages"].get(sp), st["snap"]["stages"].get(sp)
                     if a is not None and b is not None and a[0] != b[0]:
                         v.append(("foreign-stage-file", "%s rewrote the stage file of %s which is outside its scope" % (what, sp.decode())))
+                    if not case["stages"][k_][1]["out"]:
+                        continue
                     outp = case["stages"][k_][1]["out"][0][0]
                     if s1eval.logical(prev, under=outp) != s1eval.logical(st["snap"], under=outp) and op[0] in ("commit", "checkout"):
                         pw = {p: x for p, x in s1eval.parse_snap(prev)[0].items() if p == outp or p.startswith(outp + b"/")}
